@@ -76,6 +76,8 @@ class Runner:
         for step in range(n):
             c('clock +1')
             q = c('async_run 0')
+            if q.rc != 0:
+                out.append(('R', str(q.rc)))       # KSI_AsyncService_run itself reported the failure
             for eid, info in list(sess.http_async.items()):
                 if not info['done']:
                     info['done'] = True
